@@ -30,6 +30,9 @@ type c03World struct {
 	Fault  string `json:"fault"` // "", "vt1:body", "vt2:status", "check:rcpt", ...
 	Fault2 string `json:"fault2"`
 	Perm   int    `json:"map_order"`
+	// LogCap > 0: max_logged_rcpt_errors is set to it (default 5: more refused RCPT commands
+	// than the explored sequences hold)
+	LogCap int `json:"max_logged_rcpt_errors,omitempty"`
 }
 
 type c03Case struct {
@@ -91,6 +94,9 @@ func c03Config(w c03World) []config.Node {
 		// the worlds without an injected fault run with the default buffering of the
 		// message body (RAM up to a size, then a file); the others keep it in RAM
 		buf = append(buf, config.Node{Name: "buffer", Args: []string{"auto", "1M", os.TempDir()}})
+	}
+	if w.LogCap > 0 {
+		buf = append(buf, config.Node{Name: "max_logged_rcpt_errors", Args: []string{fmt.Sprint(w.LogCap)}})
 	}
 	return append(buf, []config.Node{
 		{Name: "defer_sender_reject", Args: []string{d}},
@@ -794,7 +800,7 @@ func TestVerifC16Sessions(t *testing.T) {
 	r := vx.Start("C16", "sessions")
 	defer r.Finish()
 	c03JudgeASCII = true
-	r.Rule("every command sequence of length <= 6 (no merging of states) over {EHLO, MAIL with / without SMTPUTF8, RCPT, RSET (thorough: DATA)} on the real SMTP endpoint in worlds {deferred, immediate sender reject} x {no fault, check reject at sender / recipient / body, target refusal at recipient / body}, scripted failures carrying non-ASCII text; oracle: every reply given while the transaction in progress did not use SMTPUTF8 is ASCII-only. Non-trivial: all transitions")
+	r.Rule("every command sequence of length <= 6 (no merging of states) over {EHLO, MAIL with / without SMTPUTF8, RCPT, RSET (thorough: DATA)} on the real SMTP endpoint in worlds {deferred, immediate sender reject} x {no fault, check reject at sender / recipient / body, target refusal at recipient / body; the recipient-stage faults also with max_logged_rcpt_errors 1}, scripted failures carrying non-ASCII text; oracle: every reply given while the transaction in progress did not use SMTPUTF8 is ASCII-only. Non-trivial: all transitions")
 	if rp := r.Replay(); rp != nil {
 		var c c03Case
 		if json.Unmarshal(rp, &c) != nil || len(c.Cmds) == 0 {
@@ -819,12 +825,16 @@ func TestVerifC16Sessions(t *testing.T) {
 	wi := 0
 	var transitions int64
 	for _, df := range []bool{true, false} {
-		for _, f := range []string{"", "check:sender", "check:rcpt", "check:body", "vt1:rcpt", "vt1:body"} {
+		for _, f := range []string{"", "check:sender", "check:rcpt", "check:body", "vt1:rcpt", "vt1:body", "check:rcpt/logcap1", "vt1:rcpt/logcap1"} {
 			wi++
 			if !r.Mine(wi) {
 				continue
 			}
 			w := c03World{Defer: df, Fault: f}
+			if strings.HasSuffix(f, "/logcap1") {
+				// the session stops logging refused RCPT commands after the first one
+				w = c03World{Defer: df, Fault: strings.TrimSuffix(f, "/logcap1"), LogCap: 1}
+			}
 			frontier := [][]string{{}}
 			for len(frontier) > 0 {
 				h := frontier[0]
